@@ -4,6 +4,7 @@ import Props.C16
 import Proofs.Inject
 import Proofs.FillPackets
 import Proofs.DConnectL
+import Props.Reach
 /-!
 # C01 — write then read returns the same packet, field for field
 
@@ -90,38 +91,9 @@ theorem C01_frame_partial (p : Packet) (h : p.InDomain) (bs : Bytes) (he : p.enc
     (kind_ne_zero_of_domain p h)⟩
   rw [← hun, ← hfb]; rfl
 
-/-- the CONNECT body with the protocol name and version split off -/
-theorem Connect.body?_split (q : Connect) (b : Bytes) (hb : q.body? = some b) :
-    ∃ t, b = encBin q.protocolName ++ q.protocolVersion :: t
-      ∧ (q.setNV Connect.mqtt5 5).body? = some (encBin Connect.mqtt5 ++ 5 :: t) := by
-  simp only [Connect.body?, Option.map_eq_some_iff] at hb
-  obtain ⟨pl, hpl, rfl⟩ := hb
-  refine ⟨q.flags :: (encU16 q.keepAlive ++ encVb q.props.length ++ q.props ++ pl), ?_, ?_⟩
-  · simp [Connect.varHeader]
-  · have : (q.setNV Connect.mqtt5 5).payload? = some pl := hpl
-    simp only [Connect.body?, this, Option.map_some, Option.some.injEq]
-    simp [Connect.varHeader, Connect.setNV, Connect.props]
-
 theorem Connect.canon_of_domainW (k : Nat) (c : Connect) (h : c.InDomainW k) : c.Canon := by
   obtain ⟨_, _, _, _, hwok, hnone, _⟩ := h
   exact ⟨fun w hw => ⟨(hwok w hw).2.2.2.2.2.2.1, (hwok w hw).1⟩, fun hw => (hnone hw).2.1⟩
-
-/-- the twin's length bound in `Connect.InDomainL` is implied by the packet's own -/
-theorem Connect.twin_bound (q : Connect) (h : ∀ b, q.body? = some b → b.length < 268435456) :
-    ∀ b, (q.setNV Connect.mqtt5 5).body? = some b → b.length < 268435456 + 4 := by
-  intro b hb
-  cases hq : q.body? with
-  | none =>
-    have : (q.setNV Connect.mqtt5 5).body? = none := by
-      simp only [Connect.body?, Option.map_eq_none_iff] at hq ⊢; exact hq
-    rw [this] at hb; cases hb
-  | some b0 =>
-    obtain ⟨t, rfl, h0⟩ := Connect.body?_split q b0 hq
-    rw [h0] at hb; simp only [Option.some.injEq] at hb; subst hb
-    have := h _ hq
-    have hn : Connect.mqtt5.length = 4 := rfl
-    simp only [List.length_append, List.length_cons, encBin, encU16, hn] at this ⊢
-    omega
 
 theorem Connect.setNV_self (q : Connect) : (q.setNV Connect.mqtt5 5).setNV q.protocolName q.protocolVersion = q := rfl
 
@@ -252,6 +224,15 @@ theorem C01_roundtrip_partial (p : Packet) (h : p.InDomain) (bs : Bytes) (he : p
     (r : Reader) (rest : Bytes) (hd : r.data = bs ++ rest) :
     (readPacket r).1 = .pkt p ∧ (readPacket r).2.data = rest :=
   C01_roundtrip p (p.inDomainL_of_inDomain h bs he) bs he r rest hd
+
+/-- **C01 as the property words it**: for every packet built with a public constructor and any
+sequence of setter/adder calls whose arguments are inside MQTT's limits, `ReadPacket` on the bytes
+`WriteTo` produced returns that very packet and consumes exactly the frame -/
+theorem C01_api (k : Nat) (ops : List SetOp) (p : Packet) (h : (Packet.new k).applyAll ops = some p)
+    (hok : ∀ op ∈ ops, op.OK) (hf : p.Final) (bs : Bytes) (he : p.encode = .bytes bs)
+    (r : Reader) (rest : Bytes) (hd : r.data = bs ++ rest) :
+    (readPacket r).1 = .pkt p ∧ (readPacket r).2.data = rest :=
+  C01_roundtrip p (Packet.api_inDomainL k ops p h hok hf) bs he r rest hd
 
 /-- the consequences the property lists: same type, every accessor (nested will, user properties,
 subscription identifiers, filters, reason codes in order), and byte-identical re-encoding -/
